@@ -94,6 +94,20 @@ func runC01(c *Ctx) {
 	} else {
 		c.Unk("wrapper/notation.VerifyBlob", "anchor: notation.VerifyBlob", "-", "function not found")
 	}
+	// ---- the caller's requirement maps are never modified --------------------
+	{
+		var entries []*ssa.Function
+		entries = append(entries, ocis...)
+		entries = append(entries, blobs...)
+		for _, n := range []string{"Verify", "VerifyBlob"} {
+			if fn := w.Func("", n); fn != nil {
+				entries = append(entries, fn)
+			}
+		}
+		rule := "ownership: no map update, delete or clear on the verification call tree targets a map that belongs to the caller (required user metadata, plugin config): the requirement checked for one signature is the requirement checked for the next"
+		_, nw := ownershipWrites(c, entries, rule, true)
+		c.Extra["verification_map_writes"] = nw
+	}
 	c01Levels(c)
 	c.MinCount("oci/", 8, "OCI binding obligations")
 	c.MinCount("blob/", 12, "blob binding obligations")
